@@ -9,7 +9,7 @@ use crate::{for_both, hx, Ctx, Tier};
 use blsful::*;
 use serde_json::json;
 
-pub const RULE: &str = "per honest tuple (key from E or random, message from the length classes, scheme, group) the whole perturbation catalogue of the quantifier is applied: sig+kG (k=1,2,r-1), -sig, 2*sig, 3*sig, signature of another message, signature by another key; every single-bit flip of the message (exhaustive for the designated short-message tuple of each cell, 16 sampled flips otherwise), truncate by 1, extend by 0x00, replace by empty; pk of another key, pk+G, -pk; each other scheme label on the same point; VALID variants: (sig+Q)-Q, 2*(sig/2), decode(encode(sig)), key-sum with signature-sum over one message (valid in Basic/PoP, invalid in Aug). Each tuple is decided by Signature::verify, MultiSignature::verify and PublicKeyShare::verify and by the reference CoreVerify; library decision must equal the constructed expectation and the reference (expectation != reference is a harness error). Distinct by (suite,scheme,entry,pk,sig,msg); all tuples are non-trivial (both points decode, neither is the identity, the pairing equation decides).";
+pub const RULE: &str = "per honest tuple (key from E or random, message from the length classes, scheme, group; signed by the reference) the whole perturbation catalogue of the quantifier is applied: sig+kG (k=1,2,r-1), -sig, 2*sig, 3*sig, signature of another message, signature by another key; every single-bit flip of the message (exhaustive for the designated short-message tuple of each cell, 16 sampled flips otherwise), truncate by 1, extend by 0x00, replace by empty; pk of another key, pk+G, -pk; each other scheme label on the same point; VALID variants: (sig+Q)-Q, 2*(sig/2), decode(encode(sig)), key-sum with signature-sum over one message (valid in Basic/PoP, invalid in Aug). Each tuple is decided by Signature::verify, MultiSignature::verify and PublicKeyShare::verify and by the reference CoreVerify; library decision must equal the constructed expectation and the reference (expectation != reference is a harness error). Distinct by (suite,scheme,entry,pk,sig,msg); all tuples are non-trivial (both points decode, neither is the identity, the pairing equation decides).";
 
 pub fn run(ctx: &mut Ctx) {
     for_both!(run_suite, ctx);
@@ -65,13 +65,10 @@ fn run_suite<C: Suite>(ctx: &mut Ctx) {
 fn one_tuple<C: Suite>(ctx: &mut Ctx, g: u64, scheme: Scheme, kname: &str, sk: &RS, len: usize, exhaustive: bool) {
     let mut rng = ctx.rng(g);
     let msg = gen::message(len, Content::Random, &mut rng);
-    let lsk = sk_from_rs::<C>(sk);
-    let Ok(sig) = lsk.sign(lscheme(scheme), &msg) else {
-        ctx.violation(&format!("C02/sign-failed/{}/{}", C::NAME, scheme.name()), json!({"sk":hex::encode(sk.to_be_bytes())}));
-        return;
-    };
-    let pk = rpk_of::<C>(&lsk.public_key());
-    let sig = rsig_of::<C>(&sig);
+    // the honest tuple is produced by the REFERENCE (whether the library's own signer conforms
+    // is C01/C03's question; here the verifier is under test)
+    let pk = refimpl::sk_to_pk::<C::R>(sk);
+    let sig = refimpl::sign::<C::R>(scheme, sk, &msg);
     let g_sig = RSig::<C>::gen();
     let g_pk = RPk::<C>::gen();
     let other_sk = gen::random_scalar(&mut rng);
